@@ -95,7 +95,9 @@ def rule_vocabulary_broad():
             if fn.endswith(".py"):
                 with open(os.path.join(d, fn)) as fh:
                     body.append(fh.read())
-        _VOCAB_BROAD = rule_vocabulary() | set(re.findall(r"[\"']([a-z_][a-z0-9_]*)[\"']", "\n".join(body)))
+        # (only compound names: a bare word such as "asset" / "key" / "value" is almost always a field or role name in a pack,
+        #  and a freshly extracted accessor is likely to be called just that)
+        _VOCAB_BROAD = rule_vocabulary() | set(w for w in re.findall(r"[\"']([a-z_][a-z0-9_]*)[\"']", "\n".join(body)) if "_" in w)
     return _VOCAB_BROAD
 
 
